@@ -255,6 +255,15 @@ def run(ctx):
     tp = [(path, val) for bb, path, val, span in an.stores_log if path[:2] == P('disp_path') and path[-1] == ('f', 'time_pass')]
     ctx.check(len(tp) == 1 and any(x == T_ for x in walk(tp[0][1])), 'C04-6.clear', FID + '|time_pass',
               'each node passed is stamped once, with a time derived from the running time_update_next', 'time_pass stores: %s' % [N.text(an, v)[:80] for _, v in tp], w)
+    # a link is released (and the blocked-links table updated for it) by Clear events only: the release sits under `est_type == Clear`
+    rel = [c for c in an.calls if c.targets and any(t.endswith('update_links_blocked') for t in c.targets)]
+    def _is_clear(cnd, o):
+        return o != '0' and cnd[0] == 'eq' and ('variant', 'EstType::Clear') in cnd[1:]
+    def _not_arrive(cnd, o):
+        return o == '0' and cnd[0] == 'eq' and ('variant', 'EstType::Arrive') in cnd[1:]
+    ctx.check(len(rel) == 1 and any(_is_clear(cnd, o) for cnd, o in rel[0].pc) and any(_not_arrive(cnd, o) for cnd, o in rel[0].pc), 'C04-6.clear', FID + '|event',
+              'links are released by Clear events only (the release sits under est_type == Clear, after the Arrive test failed)',
+              'release gated by %s' % ([(N.text(an, x)[:60], o) for x, o in rel[0].pc][-4:] if rel else 'no release site'), w)
     occupancy(ctx, b, an)
 
 
@@ -509,6 +518,20 @@ def occupancy(ctx, b, an):
     missing = sorted(adv - rew - ({'arrive_entry', 'train_idx'} if pops else set()))
     ctx.check(not missing and bool(pops), R, 'TrainDisp::rewind|fields', 'rewind pops the authority advance pushed and resets every authority field advance sets on other authorities (%s)' % sorted(adv),
               'fields set by advance but not reset by rewind: %s; pops: %d' % (missing, len(pops)), ctx.where(rb))
+    # rewinding walks the cursors BACK: every store to a dispatch-node cursor is (that cursor − 1) (the front / back cursors repeat it until
+    # they rest on an Arrive / Clear node again)
+    ncur = 0
+    for bb, path, val, span in ran.stores_log:
+        if len(path) == 2 and path[0] == ('obj', 1) and path[1][0] == 'f' and path[1][1] in ('disp_node_idx_free', 'disp_node_idx_front', 'disp_node_idx_back'):
+            if val == ('none',) or (val[0] in ('pre', 'loopvar') and 'disp_node_idx' in repr(val)):
+                continue        # cleared, or copied from another cursor
+            ncur += 1
+            same = lambda x: (x[0] == 'loopvar' and x[2] == path) or (x[0] == 'pre' and x[1] == path)
+            back1 = [x for x in walk(val) if x[0] == 'sub' and x[2] == ONE and any(same(y) for y in walk(x[1]))]
+            fwd = [x for x in walk(val) if x[0] == 'add' and ONE in x[1:]]
+            ctx.check(bool(back1) and not fwd, R, 'TrainDisp::rewind|%s steps back' % path[1][1], 'the cursor moves back by exactly one node per step',
+                      '%s := %s' % (path[1][1], show(val, ran.names)[:160]), ctx.where(rb, span))
+    ctx.floor('cursor stores in rewind', ncur, 3)
     index_provenance(ctx, [(b, an)] + ([(ub, uan)] if ub is not None else []) + [(rb, ran)])
     links_blocked_rule(ctx)
     sentinels(ctx, b, an)
